@@ -962,3 +962,55 @@ Qed.
 
 Theorem states_quiescent' w xs : quiescent w (fold_left (get_node w) xs r_empty).
 Proof. apply states_quiescent. apply states_no_error. Qed.
+
+(* ================================================================== statements as used by Props/C13.v *)
+Theorem registry_inverse w xs a l b lab :
+  In (b, lab) (fwd_of (fold_left (get_node w) xs r_empty) l a) <->
+  In (a, lab) (inv_of (fold_left (get_node w) xs r_empty) l b).
+Proof. unfold fwd_of, inv_of. rewrite !own_In. apply states_consistent. Qed.
+
+Theorem inverse_graph_rel w xs c x y :
+  has_inverse c = true ->
+  (rel_of (class_succ w (fold_left (get_node w) xs r_empty) (inverse_of c)) x y <->
+   rel_of (class_succ w (fold_left (get_node w) xs r_empty) c) y x) /\
+  ((exists e, In (y, e) (class_succ w (fold_left (get_node w) xs r_empty) (inverse_of c) x) /\ e_tail e = y /\ e_head e = x) <->
+   (exists e, In (x, e) (class_succ w (fold_left (get_node w) xs r_empty) c y) /\ e_tail e = y /\ e_head e = x)).
+Proof.
+  intros Hc. split; [apply inverse_class_rel | apply inverse_class_edges]; auto using states_consistent.
+Qed.
+
+Theorem inverse_graph_is_bfs_of_inverse w xs c depth maxn roots U :
+  has_inverse c = true ->
+  let st := fold_left (get_node w) xs r_empty in
+  let R := rel_of (class_succ w st c) in
+  let D := shown_depth true depth in
+  covers (inverse R) roots D U -> (N.of_nat (length U) <= maxn)%N ->
+  let g := bfs true true (class_succ w st (inverse_of c)) depth maxn roots in
+  (forall x, In x (g_nodes g) <-> reach_le (inverse R) roots D x) /\
+  (forall e, In e (g_edges g) -> R (e_tail e) (e_head e)) /\
+  no_dangling (g_nodes g) (g_edges g).
+Proof.
+  intros Hc st R D HU Hlen g.
+  assert (Ext : forall k x, reach_le (rel_of (class_succ w st (inverse_of c))) roots k x <-> reach_le (inverse R) roots k x).
+  { apply (reach_le_ext (fun _ => True)); auto. intros x y _. apply inverse_class_rel; [apply states_consistent | exact Hc]. }
+  assert (HU' : covers (rel_of (class_succ w st (inverse_of c))) roots D U) by (intros x Hx; apply HU; apply Ext; exact Hx).
+  destruct (bfs_exact (class_succ w st (inverse_of c)) true depth maxn roots U HU' Hlen) as (A & B & _).
+  split; [| split].
+  - intros x. unfold g. rewrite A. apply Ext.
+  - intros e He. apply B in He. destruct He as (x & _ & He). unfold edges_from in He.
+    apply in_map_iff in He. destruct He as ([n e'] & E & Hin). simpl in E. subst e'.
+    assert (Hrel : rel_of (class_succ w st (inverse_of c)) x n).
+    { unfold rel_of. apply in_map_iff. exists (n, e). auto. }
+    apply (inverse_class_rel w st c x n (states_consistent w xs) Hc) in Hrel.
+    assert (Hdir : e_tail e = n /\ e_head e = x).
+    { destruct c; try discriminate; simpl in Hin; try apply in_app_iff in Hin;
+        repeat match goal with
+        | H : _ \/ _ |- _ => destruct H as [H | H]
+        | H : In _ (in_edges _ _ _) |- _ => exact (in_edges_wf _ _ _ _ _ H)
+        end. }
+    destruct Hdir as [-> ->]. exact Hrel.
+  - apply bfs_no_dangling. apply class_succ_wf.
+Qed.
+
+Theorem graph_no_dangling w st q : no_dangling (g_nodes (graph_of w st q)) (g_edges (graph_of w st q)).
+Proof. unfold graph_of. apply bfs_no_dangling. apply class_succ_wf. Qed.
